@@ -4,6 +4,7 @@ Theorems: coq/theories/Properties/C05.v (model Model/Graph.v = transcription of 
 Correspondence: engine `graph` (scheduler.NewExecutionGraph/AddStage/To/From) and engine `loadcfg`
 (the same graphs as YAML through config.Loader -> buildPipeline), compared in Coq with [build]."""
 import itertools
+import re
 import vlib
 
 TRUSTED = [
@@ -92,11 +93,12 @@ def gen_cases(ctx):
 
 
 def name(i):
-    return "s%d" % i
+    # stage names are free text: every other one has a comma, a colon and blanks in it
+    return "s%d" % i if i % 2 == 0 else "s%d, the: odd one" % i
 
 
 def unname(s):
-    return int(s[1:])
+    return int(re.match(r"s(\d+)", s).group(1))
 
 
 def coq_case(c, o):
